@@ -241,6 +241,25 @@ pub fn property(id: &str) -> Option<Property> {
             })],
             hang: HangPolicy::Inconclusive,
         },
+        "C15" => Property {
+            id: "C15",
+            level: "exploration",
+            rule: "proptest histories of 3..24 operations over {connect, client close, request on connection i, malformed header on connection i, request sent in two pieces, set decode level, shutdown, drop handle} against the real TCP server task (create_tcp_server_task on a loopback listener) with max_sessions in 0..4. After every operation every connection ever made is probed: connections the FIFO-eviction model says are live must answer a sentinel request, all others must reach EOF/reset; after shutdown/drop everything must be closed and the task must end. Real time: a failing history is re-run twice with 2x and 4x settling times and only reported if it fails three times. Non-trivial = history with >=2 evictions and a malformed header sent while >=2 sessions were live.",
+            assumptions: NET_ASSUMPTIONS,
+            searches: vec![Box::new(Search {
+                name: "c15_histories",
+                rule: "see property rule",
+                quick: 400,
+                thorough: 6_000,
+                strategy: crate::net::c15::arb_c15,
+                check: crate::net::c15::check_c15,
+                floors: &[("eviction", 0.40), ("evictions>=2", 0.20), ("garbage_with_2_live", 0.15), ("ended_by_shutdown_or_drop", 0.30)],
+                known: &[],
+                hang_secs: 120,
+                max_threads: 8,
+            })],
+            hang: HangPolicy::Inconclusive,
+        },
         "C17" => Property {
             id: "C17",
             level: "exploration",
@@ -445,6 +464,12 @@ fn c11_wrap_replay(v: &serde_json::Value) -> CaseResult {
     cli::c11_wrap_run(v["requests"].as_u64().unwrap_or(70_000) as usize)
 }
 
+const NET_ASSUMPTIONS: &[&str] = &[
+    "black box: only the public spawn_*/create_* API, real loopback sockets, real time (multi-thread tokio runtime); no hook is used",
+    "absence of a reply is never inferred from silence alone: dead connections must reach EOF/reset, live ones must answer a sentinel",
+    "the OS scheduler is not under the harness's control: after an operation the harness waits a settling time (15 ms, doubled on re-runs) for the server to observe it; a history that fails is re-run twice and reported only if it fails all three times; disturbances that do not reproduce are counted in the evidence (labels flaky:*)",
+];
+
 const SIM_ASSUMPTIONS_CLI: &[&str] = &[
     "the production ClientLoop / FrameWriter / FramedReader are constructed by rodbus::verif::client_session exactly as tcp/client.rs and serial/client.rs do; the in-memory transport replaces the socket only",
     "request arguments are built only through the public constructors (AddressRange::try_from, WriteMultiple::from, Indexed::new); struct-literal AddressRange values are outside the property's domain",
@@ -452,4 +477,4 @@ const SIM_ASSUMPTIONS_CLI: &[&str] = &[
     "the byte-count field of read replies is not part of the statement's acceptance conditions: accepted-with-the-encoded-values and rejected are both allowed (counted)",
 ];
 
-pub const ALL: &[&str] = &["C01", "C02", "C03", "C04", "C05", "C06", "C07", "C08", "C10", "C11", "C12", "C17", "C20"];
+pub const ALL: &[&str] = &["C01", "C02", "C03", "C04", "C05", "C06", "C07", "C08", "C10", "C11", "C12", "C15", "C17", "C20"];
